@@ -51,6 +51,10 @@ fn s(v: &str) -> Val {
 fn i(v: &str) -> Val {
     Val::Int(v.into(), p0())
 }
+/// integer literals that are no signed 32-bit values (not valid where `Int` is expected: spec 3.5.1; fix e3584a3)
+pub const OUT_OF_INT32: [&str; 8] = ["2147483648", "-2147483649", "4294967296", "3000000000", "9007199254740992", "-9007199254740993", "12345678901234567890", "-9223372036854775809"];
+/// integer literals that are signed 32-bit values, boundaries included
+pub const IN_INT32: [&str; 7] = ["0", "-0", "2147483647", "-2147483647", "-2147483648", "1000000000", "-2000000000"];
 
 /// the syntactic places where directives can be applied in a type-system document
 #[derive(Clone, Debug)]
@@ -324,6 +328,30 @@ pub fn enrich(rng: &mut Rng, m: &mut SchemaModel, features: &mut BTreeSet<String
                 _ => {
                     new = vec![Dir::new("meta", vec![Arg::new("tags", s("single"))])];
                     features.insert("valid:coercion-item-for-list".into());
+                }
+            }
+        }
+        if tagged && rng.chance(1, 12) {
+            // numeric boundaries (fix e3584a3 must not make the check stricter than the specification): 32-bit boundary
+            // values where Int is expected (argument, input field), integers of any size for Float and ID
+            let inb = |rng: &mut Rng| i(IN_INT32[rng.below(IN_INT32.len())]);
+            let big = |rng: &mut Rng| i(OUT_OF_INT32[rng.below(OUT_OF_INT32.len())]);
+            match rng.below(4) {
+                0 => {
+                    new = vec![Dir::new("meta", vec![Arg::new("level", inb(rng)), Arg::new("info", Val::Obj(vec![Arg::new("k", s("a")), Arg::new("v", inb(rng))], p0()))])];
+                    features.insert("valid:int-32-bit-boundary(argument+input-field)".into());
+                }
+                1 => {
+                    new = vec![Dir::new("lvl", vec![Arg::new("n", inb(rng))])];
+                    features.insert("valid:int-32-bit-boundary(non-null-argument)".into());
+                }
+                2 => {
+                    new = vec![Dir::new("meta", vec![Arg::new("ratio", big(rng)), Arg::new("level", inb(rng))])];
+                    features.insert("valid:integer-beyond-32-bit-for-float".into());
+                }
+                _ => {
+                    new = vec![Dir::new("meta", vec![Arg::new("ident", big(rng))])];
+                    features.insert("valid:integer-beyond-32-bit-for-id".into());
                 }
             }
         }
@@ -1071,7 +1099,14 @@ pub fn mutate(rng: &mut Rng, items: &mut Vec<TsItem>, rule: &str) -> Option<Stri
             items.push(dirdef("noargs", vec![], true, &all));
             let n1 = || Arg::new("n", i("1"));
             let ob = |fs: Vec<Arg>| Val::Obj(fs, p0());
+            // an integer literal outside the signed 32-bit range where Int is expected (spec 3.5.1; fix e3584a3)
+            let mut big = || i(OUT_OF_INT32[rng.below(OUT_OF_INT32.len())]);
+            let (big1, big2, big3, big4) = (big(), big(), big(), big());
             let mut faults: Vec<(Dir, &str)> = vec![
+                (Dir::new("ar", vec![Arg::new("n", big1)]), "int-beyond-32-bit"),
+                (Dir::new("ar", vec![n1(), Arg::new("l", Val::List(vec![i("2147483647"), big2, i("-2147483648")], p0()))]), "list-item-int-beyond-32-bit"),
+                (Dir::new("ar", vec![n1(), Arg::new("l", big3)]), "single-value-for-list-int-beyond-32-bit"),
+                (Dir::new("ar", vec![n1(), Arg::new("i", ob(vec![Arg::new("k", s("a")), Arg::new("v", big4)]))]), "input-object-field-int-beyond-32-bit"),
                 (Dir::new("ar", vec![n1(), Arg::new("zz", i("2"))]), "unknown-argument"),
                 (Dir::new("ar", vec![Arg::new("e", Val::Enum("RED".into(), p0()))]), "required-argument-missing"),
                 (Dir::new("ar", vec![]), "required-argument-missing-no-arguments"),
